@@ -103,6 +103,9 @@ ConstantArithmetic ==
       : cx \in {"top", "addL"}, a \in {C(5), C(-3)}, b \in {C(8), Q(1, 2)}, v \in {X}, t \in {Y, Bin("pow", Z, C(2))}}
   \cup {Case("fold.chain2", "fold", "", cx, Bin(k, a, Bin(k, b, t)), <<>>, "apply", "ac", <<Bin(k, QC(FoldQ(k, a, b)), t)>>, NoFP)
       : cx \in {"top", "eqL"}, k \in {"add", "mul"}, a \in {C(7), C(-3)}, b \in {C(10), Q(1, 2)}, t \in {X, Bin("mul", C(2), Y)}}
+  \* the additive analogue of 5 * (8h * t): c1 + ((c2 + x) + y)
+  \cup {Case("fold.chaindeep", "fold", "", cx, Bin(k, a, Bin(k, Bin(k, b, v), t)), <<>>, "apply", "ac", <<Bin(k, Bin(k, QC(FoldQ(k, a, b)), v), t)>>, NoFP)
+      : cx \in {"top", "addL", "eqR"}, k \in {"add", "mul"}, a \in {C(5), C(-3)}, b \in {C(3), Q(1, 2)}, v \in {X}, t \in {Y, Bin("pow", Z, C(2))}}
   \* nothing to fold
   \cup {Case("fold.not", "fold", "", cx, t, <<>>, "refuse", "exact", <<>>, NoFP)
       : cx \in {"top", "addL", "eqR"}, t \in {Bin("add", C(2), Bin("mul", C(3), X)), Bin("sub", Bin("mul", C(3), X), C(2)), Bin("mul", C(2), Bin("pow", X, C(2))),
